@@ -16,7 +16,7 @@ import numpy as np
 
 from . import detmodels, lossref, sched
 
-ACCEPT, REJECT_TOL, REJECT_PRIOR, DUPLICATE = "ACCEPT", "REJECT_TOL", "REJECT_PRIOR", "DUPLICATE"
+ACCEPT, REJECT_TOL, REJECT_PRIOR, DUPLICATE, REJECT_NAN = "ACCEPT", "REJECT_TOL", "REJECT_PRIOR", "DUPLICATE", "REJECT_NAN"
 NRUNG = 160
 
 
@@ -115,7 +115,7 @@ class Problem:
         sol = detmodels.reference_solution(self.cfg["model"], theta, x0, self.t0, self.times, d=self.d)
         yhat = sol[:, [self.states.index(s) for s in self.cols]]
         if self.kind == "Poisson" and np.min(yhat) <= 0:
-            c = float("inf")
+            c = float("nan")
         else:
             c = lossref.loss_value(self.kind, self.y, yhat, None, self.cfg.get("sigma") if self.kind == "Normal" else None)
         self._cache[key] = c
@@ -172,7 +172,7 @@ class Env:
         self.done = True
         self.res = None
         self.dist = None
-        self.counts = {ACCEPT: 0, REJECT_TOL: 0, REJECT_PRIOR: 0, DUPLICATE: 0, "boundary_duplicates": 0, "accepted": 0, "rejected": 0}
+        self.counts = {ACCEPT: 0, REJECT_TOL: 0, REJECT_PRIOR: 0, DUPLICATE: 0, REJECT_NAN: 0, "boundary_duplicates": 0, "accepted": 0, "rejected": 0}
 
     # ---------------------------------------------------------- reference run
     def begin_call(self, N, tol, G, q, rerun):
@@ -228,6 +228,8 @@ class Env:
         if not self.pb.supported(v):
             return float("nan"), False
         c = self.pb.refcost(v)
+        if math.isnan(c):
+            return c, False                         # undefined cost: never below any tolerance
         if c != self.tol and math.isfinite(self.tol) and abs(c - self.tol) <= 1e-7 * abs(self.tol):
             raise Cut("reference cost within 1e-7 of the tolerance: too close to call")
         return c, bool(c < self.tol)
@@ -323,13 +325,24 @@ class Env:
             j = int(np.argmax(self.dist))
         return None, self.res[j].copy()
 
+    def cand_nan(self):
+        """a point inside the prior support at which the loss is undefined (a non-positive prediction under a likelihood
+        for positive data: the library's cost is nan there); neither 'cost < tolerance' nor its careless negation holds"""
+        v = self.pb.cfg.get("nan_point")
+        if v is None:
+            return None
+        v = np.array(v, float) * (1 + 1e-3 * (len(self.log) % 7))
+        c = self.pb.refcost(v)
+        return (None, v) if (self.pb.supported(v) and not math.isfinite(c)) else None
+
     def new_proposal(self, mean=None, sigma=None):
         if self.done:
             raise Mismatch("library-asks-for-a-proposal-after-the-reference-run-is-complete", proposals=len(self.log))
         self.conform_step()
         menu = []
         for cls, fn in ((ACCEPT, lambda: self.cand_accept(mean, sigma)), (REJECT_TOL, self.cand_reject_tol),
-                        (REJECT_PRIOR, lambda: self.cand_reject_prior(mean, sigma)), (DUPLICATE, self.cand_duplicate)):
+                        (REJECT_PRIOR, lambda: self.cand_reject_prior(mean, sigma)), (DUPLICATE, self.cand_duplicate),
+                        (REJECT_NAN, self.cand_nan)):
             c = fn()
             if c is not None:
                 menu.append((cls, c))
